@@ -75,6 +75,7 @@ func checkC01(c *ev.Ctx) {
 	cases := xzCases(c.Seed, 1, n, big)
 	cases = append(cases, bigXZCases(c.Seed)...)
 	c.MinEvals(int64(len(cases) / 2))
+	defaultCtors(c, "xz")
 	par(len(cases), func(i int) {
 		k := cases[i]
 		noteCase(k.ID)
